@@ -370,9 +370,18 @@ def discharge(body, site, p, i, e):
             d = "debug_assert(%s)" % (shape(sw[-1][2]) if sw else "?")
         key = norm_shape("%s|%s|%s" % (fn, site.kind, d))
         DEBUG_SEEN.append(key)
-        for ek, reason in DEBUG_INVARIANTS.items():
-            if key_matches(norm_shape(ek), key):
-                return "debug-assertion of an audited internal invariant: " + reason
+        keys = [key]
+        owner, hops = body, 0
+        while hops < 2:   # a private helper with one caller is a piece of that caller (engine.sole_caller)
+            owner = sole_caller(body.facts, owner) if getattr(body, "facts", None) is not None else None
+            if owner is None:
+                break
+            hops += 1
+            keys.append(norm_shape("%s|%s|%s" % (sym.short(strip_generics(owner.path).replace("::{closure#0}", "{c0}")), site.kind, d)))
+        for kk in keys:
+            for ek, reason in DEBUG_INVARIANTS.items():
+                if key_matches(norm_shape(ek), kk):
+                    return "debug-assertion of an audited internal invariant: " + reason
         return None   # a debug assertion on a condition nobody audited is a panic in every debug build
     kind = site.kind
     if kind.startswith("assert:Overflow:Add") or kind.startswith("assert:Overflow:Mul"):
@@ -593,6 +602,25 @@ def range_arg(p, i, e):
                 if t[0] == "bin" and t[1] in ("Gt", "Ge") and v != 0 and t[3][0] == "c" and (call_is(t[2], "len") or t[2][0] == "len"):
                     if t[3][2] + (1 if t[1] == "Gt" else 0) >= need:
                         return "constant cuts within a tested length"
+    # s[..k] / s[k..] where the path tested `s.len() >= k` (k any term, e.g. another slice's length)
+    if kind in ("RangeTo", "RangeFrom"):
+        k = strip_wrappers(ops[0])
+        for t, v, listed in decisions_before(p, i):
+            if t[0] != "bin" or t[1] not in ("Ge", "Gt", "Le", "Lt"):
+                continue
+            l, r = strip_wrappers(t[2]), strip_wrappers(t[3])
+            op = t[1]
+            if (call_is(r, "len") or r[0] == "len") and not (call_is(l, "len") and same_slice(base_slice(l[3][0]), base)):
+                l, r = r, l
+                op = {"Ge": "Le", "Gt": "Lt", "Le": "Ge", "Lt": "Gt"}[op]
+            same_bound = r == k or (call_is(r, "len") and call_is(k, "len") and strip_wrappers(r[3][0]) == strip_wrappers(k[3][0])
+                                    and not has_subterm(strip_wrappers(r[3][0]), lambda s2: s2[0] == "call"))   # two `x.len()` of the same untouched place
+            if not (call_is(l, "len") and l[3] and same_slice(base_slice(l[3][0]), base)) or not same_bound:
+                continue
+            # len(s) op k
+            holds = (op in ("Ge", "Gt") and v != 0) or (op in ("Lt",) and v == 0)
+            if holds:
+                return "bound within a length tested on this path (len >= bound)"
     # constant start under starts_with / length test
     consts = [strip_wrappers(x) for x in ops]
     if kind in ("RangeFrom", "RangeTo") and consts[0][0] == "call" and name_is(consts[0][2], "len") and bytes_literal(consts[0][3][0]) is not None:
